@@ -146,8 +146,9 @@ Print Assumptions C03_dimacs_strict_header_witness.
      comment     valid UTF-8 (cmt_ok);
      ascii       latch states and gate outputs present (latch_aag_ok, and_aag_ok);
      binary      no input vector, latches and gates without own literal, gate inputs in the writer's order
-                 rhs0 >= rhs1, rhs0 not above the gate's own code, both deltas below 2^56 (oands_ok), and
-                 2 (I + L + A + 1) < 2^64: the writer's `(input_count + 1) * 2` and `code += 2` do not overflow. *)
+                 rhs0 >= rhs1, rhs0 not above the gate's own code 2 (I + L + 1 + k), both deltas below 2^56 (oands_ok).
+                 The whole range of headers the parser accepts is covered, up to I + L + A = M = 2^63 - 1: writer (D14)
+                 and parser (D13) compute the running code with wrapping arithmetic and no code that is used wraps. *)
 From Flussab Require Import Aiger AigerProofs AigerWrite AigerRt.
 
 Theorem C03_aag_roundtrip : forall (fuel : nat) (maxc : N) (a : aig),
@@ -181,7 +182,6 @@ Print Assumptions C03_aag_domain.
 Theorem C03_aig_domain : forall maxc a,
   aig_ok maxc a =
   (counts_ok maxc a /\ g_inputs a = [] /\
-   2 * (a_inputs (g_header a) + nlen (g_latches a) + nlen (g_ands a) + 1) < 2 ^ 64 /\
    Forall (olatch_ok (a_max_var (g_header a))) (g_latches a) /\ middle_ok (a_max_var (g_header a)) a /\
    oands_ok ((a_inputs (g_header a) + 1) * 2 + 2 * nlen (g_latches a)) (g_ands a) /\
    Forall (sym_ok (g_header a)) (g_symbols a) /\ cmt_ok (g_comment a)).
@@ -208,3 +208,70 @@ Example C03_aiger_example :
    match srun (parse_aig 300 255 lrs_init) (view_init (write_aig ex_aig) None) with
    | ADone (r, _) _ => Aiger.whole_file r = Ok ex_aig | _ => False end).
 Proof. exact (conj aag_roundtrip_example aig_roundtrip_example). Qed.
+
+(* the upper end of the binary domain: I + L + A = M = 2^63 - 1 *)
+Example C03_aiger_example_max :
+  aig_ok 18446744073709551615 ex_aig_max /\
+  match srun (parse_aig 300 18446744073709551615 lrs_init) (view_init (write_aig ex_aig_max) None) with
+  | ADone (r, _) _ => Aiger.whole_file r = Ok ex_aig_max | _ => False end.
+Proof. exact aig_roundtrip_example_max. Qed.
+
+(* ------------------------------------------------------------------ *)
+(* The AIGER and BTOR2 round trips for EVERY run (RtAll.v): every admissible abstract run of the parser program on the
+   written bytes -- whatever the fast-path tests of the number scanners answer -- and every concrete run of the
+   DeferredReader model -- any honest source delivering the written bytes and then ending cleanly, in any pieces, read
+   with any chunk size -- returns the value.  (The parse is answer-insensitive: PDet_parse_aag / aig / btor2; never
+   stuck, panicking or out of fuel: AigerSafe / Btor2Safe; simulation: C01.)  Inputs below 2^62 bytes. *)
+From Flussab Require Import ReaderProofs Simulation CnfSafe RtAll.
+
+Theorem C03_aag_roundtrip_all_runs : forall (fuel : nat) (maxc : N) (a : aig) r,
+  aag_ok maxc a -> (length (write_aag a) < fuel)%nat -> nlen (write_aag a) < 2 ^ 62 ->
+  aruns (parse_aag fuel maxc lrs_init) (view_init (write_aag a) None) r ->
+  exists lr' v', r = ADone ((Some (g_header a), aag_items a, FOk), lr') v' /\
+                 Aiger.whole_file (Some (g_header a), aag_items a, FOk) = Ok a.
+Proof. exact aag_roundtrip_all_runs. Qed.
+Print Assumptions C03_aag_roundtrip_all_runs.
+
+Theorem C03_aag_roundtrip_concrete : forall (fuel : nat) (maxc : N) (a : aig) (sr : source) (c : N),
+  aag_ok maxc a -> (length (write_aag a) < fuel)%nat -> nlen (write_aag a) < 2 ^ 62 ->
+  NoLie (events sr) -> 1 <= c -> stream_of sr = (write_aag a, None) ->
+  exists lr' s', crun (parse_aag fuel maxc lrs_init) (set_chunk (reader_init sr) c)
+                 = CDone ((Some (g_header a), aag_items a, FOk), lr') s' /\
+                 Aiger.whole_file (Some (g_header a), aag_items a, FOk) = Ok a.
+Proof. exact aag_roundtrip_concrete. Qed.
+Print Assumptions C03_aag_roundtrip_concrete.
+
+Theorem C03_aig_roundtrip_all_runs : forall (fuel : nat) (maxc : N) (a : aig) r,
+  aig_ok maxc a -> (length (write_aig a) < fuel)%nat -> nlen (write_aig a) < 2 ^ 62 ->
+  aruns (parse_aig fuel maxc lrs_init) (view_init (write_aig a) None) r ->
+  exists lr' v', r = ADone ((Some (g_header a), aig_items a, FOk), lr') v' /\
+                 Aiger.whole_file (Some (g_header a), aig_items a, FOk) = Ok a /\
+                 write_aig_checked a = WrOk (write_aig a).
+Proof. exact aig_roundtrip_all_runs. Qed.
+Print Assumptions C03_aig_roundtrip_all_runs.
+
+Theorem C03_aig_roundtrip_concrete : forall (fuel : nat) (maxc : N) (a : aig) (sr : source) (c : N),
+  aig_ok maxc a -> (length (write_aig a) < fuel)%nat -> nlen (write_aig a) < 2 ^ 62 ->
+  NoLie (events sr) -> 1 <= c -> stream_of sr = (write_aig a, None) ->
+  exists lr' s', crun (parse_aig fuel maxc lrs_init) (set_chunk (reader_init sr) c)
+                 = CDone ((Some (g_header a), aig_items a, FOk), lr') s' /\
+                 Aiger.whole_file (Some (g_header a), aig_items a, FOk) = Ok a /\
+                 write_aig_checked a = WrOk (write_aig a).
+Proof. exact aig_roundtrip_concrete. Qed.
+Print Assumptions C03_aig_roundtrip_concrete.
+
+Theorem C03_btor2_roundtrip_all_runs : forall (fuel : nat) (ls : list Btor2.line) r,
+  Forall Btor2Rt.line_ok ls -> Forall (fun b => b < 256) (Btor2Rt.write_lines ls) ->
+  (length (Btor2Rt.write_lines ls) < fuel)%nat -> nlen (Btor2Rt.write_lines ls) < 2 ^ 62 ->
+  aruns (Btor2.parse_btor2 fuel lrs_init) (view_init (Btor2Rt.write_lines ls) None) r ->
+  exists lr' v', r = ADone ((ls, FOk), lr') v'.
+Proof. exact btor2_roundtrip_all_runs. Qed.
+Print Assumptions C03_btor2_roundtrip_all_runs.
+
+Theorem C03_btor2_roundtrip_concrete : forall (fuel : nat) (ls : list Btor2.line) (sr : source) (c : N),
+  Forall Btor2Rt.line_ok ls -> Forall (fun b => b < 256) (Btor2Rt.write_lines ls) ->
+  (length (Btor2Rt.write_lines ls) < fuel)%nat -> nlen (Btor2Rt.write_lines ls) < 2 ^ 62 ->
+  NoLie (events sr) -> 1 <= c -> stream_of sr = (Btor2Rt.write_lines ls, None) ->
+  exists lr' s', crun (Btor2.parse_btor2 fuel lrs_init) (set_chunk (reader_init sr) c) = CDone ((ls, FOk), lr') s'.
+Proof. exact btor2_roundtrip_concrete. Qed.
+Print Assumptions C03_btor2_roundtrip_concrete.
